@@ -1149,3 +1149,496 @@ Proof.
     cbn [ety]. rewrite (IHA Ha1 _ _ _ E1 Es1). simpl.
     rewrite assert_spec, Ec, Ha2. reflexivity.
 Qed.
+
+(* ====================================================================== *)
+(* statements: the contexts in which a value meets an expected type        *)
+(* ====================================================================== *)
+
+Lemma ann_sty_ety F G A s : ann_ok F G A = true -> spec_ty_of G A = Some s -> ety F G A = Some (ty_of s).
+Proof.
+  intros Ha Hs. unfold spec_ty_of in Hs. destruct (erase G A) as [e|] eqn:He; [|discriminate].
+  destruct (Sp.spec_tc e) as [[k s']|] eqn:Ht; [|discriminate]. simpl in Hs. inversion Hs; subst.
+  exact (proj1 (spec_to_static F G A) Ha e k s He Ht).
+Qed.
+
+(* a value flowing into a slot of type t (declared variable, assignment target, return type): it has
+   exactly the slot's type, or the slot is any and the value is wrapped *)
+Definition sval (F : list funcdef) (G : tyenv) (t : ty) (e : expr) : bool :=
+  ty_value t && arg_ann (ann_ok F G) G t e.
+
+Lemma sval_ety F G t e : sval F G t e = true -> ety F G e = Some t.
+Proof.
+  unfold sval. intros H. apply andb_true_iff in H as [Hv H].
+  destruct (arg_conv F G t e (spec_to_static F G e) H) as (ta & Hta & Hok).
+  unfold arg_ok in Hok. destruct t; try discriminate;
+    apply andb_true_iff in Hok as [Hok _]; apply ty_eqb_true in Hok; subst; exact Hta.
+Qed.
+
+(* ... and the specification's assignability rule accepts that flow *)
+Lemma sval_spec_accepts F G t e st :
+  sval F G t e = true -> sty_of t = Some st -> S.closed st = true ->
+  exists e', erase G e = Some e' /\
+             exists shown, Sp.spec_check (S.CAssign st) e' = Sp.SAccept st shown.
+Proof.
+  unfold sval. intros H Hst Hc. apply andb_true_iff in H as [_ H].
+  assert (EXACT : forall a, sty_is G a t = true ->
+            exists e', erase G a = Some e' /\ exists k, Sp.spec_tc e' = Some (k, st)).
+  { intros a Hs. destruct (sty_is_inv _ _ _ Hs) as (e' & k & s & He & Htc & Ht).
+    exists e'. split; [exact He|]. exists k. rewrite Htc. subst t. rewrite sty_of_ty_of in Hst. congruence. }
+  assert (ACC : forall e' k, Sp.spec_tc e' = Some (k, st) ->
+            exists shown, Sp.spec_check (S.CAssign st) e' = Sp.SAccept st shown).
+  { intros e' k Htc. unfold Sp.spec_check, Sp.spec_assign. rewrite Htc.
+    assert (Sp.assignable_b k st st = true) as ->; [|eauto].
+    unfold Sp.assignable_b. destruct k; [rewrite (proj2 (sty_eqb_eq st st) eq_refl); reflexivity|].
+    apply TypesSpecProofs.conv_b_refl. }
+  unfold arg_ann in H. destruct t; try discriminate;
+    try (apply andb_true_iff in H as [H _]; apply andb_true_iff in H as [_ H];
+         destruct (EXACT _ H) as (e' & He & k & Htc); exists e'; split; [exact He|]; eapply ACC; eauto).
+  (* the slot is any *)
+  simpl in Hst. inversion Hst; subst st.
+  destruct e; try (apply andb_true_iff in H as [_ H];
+         destruct (EXACT _ H) as (e' & He & k & Htc); exists e'; split; [exact He|]; eapply ACC; eauto).
+  apply andb_true_iff in H as [H _]. apply andb_true_iff in H as [H _]. apply andb_true_iff in H as [_ H].
+  destruct (sty_is_inv _ _ _ H) as (e' & k & s & He & Htc & Ht).
+  exists e'. cbn [erase]. split; [exact He|].
+  unfold Sp.spec_check, Sp.spec_assign. rewrite Htc.
+  assert (Sp.assignable_b k S.SAny s = true) as ->; [|eauto].
+  unfold Sp.assignable_b. destruct k; [apply orb_true_r|]. destruct s; reflexivity.
+Qed.
+
+(* ---------- assignment targets: the chain of index / dot steps from a variable ---------- *)
+(* the written target as the specification's context sees it: root variable type + steps *)
+Fixpoint target_of (G : tyenv) (tg : expr) : option (S.sty * list S.tstep) :=
+  match tg with
+  | EVar n _ => match slookup n G with
+                | Some t => match sty_of t with Some s => Some (s, []) | None => None end
+                | None => None
+                end
+  | EIndex _ a i =>
+      match target_of G a, erase G i with
+      | Some (root, steps), Some i' => Some (root, steps ++ [S.TIdx i'])
+      | _, _ => None
+      end
+  | EDot _ a _ =>
+      match target_of G a with
+      | Some (root, steps) => Some (root, steps ++ [S.TDot])
+      | None => None
+      end
+  | _ => None
+  end.
+
+(* the type the specification's target-chain rule gives the target *)
+Definition target_sty (G : tyenv) (tg : expr) : option S.sty :=
+  match target_of G tg with
+  | Some (root, steps) =>
+      match Sp.spec_steps steps with
+      | Some ks => Sp.target_chain_s root ks
+      | None => None
+      end
+  | None => None
+  end.
+
+Lemma spec_steps_app a b :
+  Sp.spec_steps (a ++ b) =
+  match Sp.spec_steps a, Sp.spec_steps b with Some x, Some y => Some (x ++ y) | _, _ => None end.
+Proof.
+  induction a as [|st a IH]; simpl.
+  - destruct (Sp.spec_steps b); reflexivity.
+  - rewrite IH.
+    destruct (match st with
+              | S.TIdx i => match Sp.spec_tc i with Some (_, it) => Some (Sp.SKIdx it) | None => None end
+              | S.TDot => Some Sp.SKDot | S.TSlice _ => Some Sp.SKSlice | S.TAssert _ => Some Sp.SKAssert end);
+      destruct (Sp.spec_steps a); destruct (Sp.spec_steps b); reflexivity.
+Qed.
+
+Lemma target_chain_app root a b :
+  Sp.target_chain_s root (a ++ b) =
+  match Sp.target_chain_s root a with Some t => Sp.target_chain_s t b | None => None end.
+Proof.
+  revert root; induction a as [|k a IH]; intros root; simpl; [reflexivity|].
+  destruct (Sp.target_step_s root k); [apply IH|reflexivity].
+Qed.
+
+(* a target the chain rule types is typed the same by the expression rules, and its last step is an
+   array or map step (Static's shape condition) *)
+Lemma target_sty_spec G : forall tg st, target_sty G tg = Some st ->
+  spec_ty_of G tg = Some st /\
+  match tg with
+  | EVar _ _ | EDot _ _ _ => True
+  | EIndex _ a _ => exists u, spec_ty_of G a = Some (S.SArr u) \/ spec_ty_of G a = Some (S.SMap u)
+  | _ => False
+  end.
+Proof.
+  unfold target_sty.
+  induction tg as [| | |n t0'| | | | | | |tx tg1 IHtg1 tg2 IHtg2| |tx tg IHtg key| |]; intros st H; cbn [target_of] in H; try discriminate.
+  - (* variable *)
+    destruct (slookup n G) as [t0|] eqn:El; [|discriminate].
+    destruct (sty_of t0) as [s0|] eqn:Es; [|discriminate]. simpl in H. inversion H; subst.
+    split; [|exact I]. unfold spec_ty_of. cbn [erase]. rewrite El, Es. reflexivity.
+  - (* index step *)
+    destruct (target_of G tg1) as [[root steps]|] eqn:E1; [|discriminate].
+    destruct (erase G tg2) as [i'|] eqn:E2; [|discriminate].
+    rewrite spec_steps_app in H. destruct (Sp.spec_steps steps) as [ks|] eqn:Ek; [|discriminate].
+    simpl in H. destruct (Sp.spec_tc i') as [[ki it]|] eqn:Ei; [|discriminate].
+    rewrite target_chain_app in H. destruct (Sp.target_chain_s root ks) as [ta|] eqn:Ec; [|discriminate].
+    destruct (IHtg1 ta eq_refl) as [Ha _]. simpl in H.
+    unfold spec_ty_of in *. cbn [erase]. destruct (erase G tg1) as [l'|]; [|discriminate]. rewrite E2.
+    cbn [Sp.spec_tc]. destruct (Sp.spec_tc l') as [[kl a]|]; [|discriminate]. simpl in Ha. inversion Ha; subst a.
+    rewrite Ei. destruct (Sp.target_step_s ta (Sp.SKIdx it)) as [t'|] eqn:Et; [|discriminate]. inversion H; subst t'.
+    destruct ta; try discriminate; destruct it; try discriminate; simpl in Et; inversion Et; subst; simpl; eauto.
+  - (* dot step *)
+    destruct (target_of G tg) as [[root steps]|] eqn:E1; [|discriminate].
+    rewrite spec_steps_app in H. destruct (Sp.spec_steps steps) as [ks|] eqn:Ek; [|discriminate].
+    simpl in H. rewrite target_chain_app in H. destruct (Sp.target_chain_s root ks) as [ta|] eqn:Ec; [|discriminate].
+    destruct (IHtg ta eq_refl) as [Ha _]. simpl in H.
+    unfold spec_ty_of in *. cbn [erase]. destruct (erase G tg) as [l'|]; [|discriminate].
+    cbn [Sp.spec_tc option_map]. destruct (Sp.spec_tc l') as [[kl a]|]; [|discriminate]. simpl in Ha. inversion Ha; subst a.
+    destruct (Sp.target_step_s ta Sp.SKDot) as [t'|] eqn:Et; [|discriminate]. inversion H; subst t'.
+    destruct ta; try discriminate; simpl in Et; inversion Et; subst; simpl; auto.
+Qed.
+
+(* ---------- the loop variable of  for x := range e ---------- *)
+(* the specification's verdict on the range operand, under the guard of [range_spec] *)
+Definition range_guard (s : S.sty) : bool :=
+  match s with S.SArr u => S.closed u | S.SNum => false | _ => true end.
+
+Definition srange (s : S.sty) : option ty :=
+  if range_guard s then
+    match Sp.spec_check S.CRange (S.EVar s) with Sp.SAccept st _ => Some (ty_of st) | Sp.SReject => None end
+  else None.
+
+Lemma spec_check_range_tc e k s : Sp.spec_tc e = Some (k, s) ->
+  Sp.spec_check S.CRange e = Sp.spec_check S.CRange (S.EVar s).
+Proof. intros H. unfold Sp.spec_check. rewrite H. reflexivity. Qed.
+
+Lemma srange_static s t : srange s = Some t -> range_var_ty (ty_of s) = Some t.
+Proof.
+  unfold srange. destruct (range_guard s) eqn:Eg; [|discriminate]. intros H.
+  rewrite <- (range_spec s).
+  - destruct (Sp.spec_check S.CRange (S.EVar s)); [|discriminate]. inversion H; reflexivity.
+  - destruct s; simpl in *; auto; discriminate.
+Qed.
+
+(* ---------- the statement checker driven by the specification's rules ---------- *)
+Definition sis (F : list funcdef) (G : tyenv) (e : expr) (t : ty) : bool := ann_ok F G e && sty_is G e t.
+Definition siso (F : list funcdef) (G : tyenv) (o : option expr) (t : ty) : bool :=
+  match o with Some x => sis F G x t | None => true end.
+
+Lemma sis_ety F G e t : sis F G e t = true -> ety F G e = Some t.
+Proof.
+  unfold sis. intros H. apply andb_true_iff in H as [H1 H2].
+  eapply ann_typed_by_sty; eauto. apply spec_to_static.
+Qed.
+
+(* the value node the parser fabricates for a typed declaration  x:[]num  /  x:{}num  and for
+   x := []  (declared with the defaulted type): an empty literal carrying the declared type *)
+Definition zero_lit (t : ty) (e : expr) : bool :=
+  match e, t with
+  | EArr t' [], TArr _ => ty_eqb t t'
+  | EMap t' [], TMap _ => ty_eqb t t'
+  | _, _ => false
+  end.
+
+Lemma zero_lit_ety F G t e : zero_lit t e = true -> ty_decl t = true -> ety F G e = Some t.
+Proof.
+  unfold zero_lit. intros H Hd.
+  assert (Ha : ty_ann t = true).
+  { unfold ty_decl in Hd. apply andb_true_iff in Hd as [Hp Hs]. unfold ty_ann. rewrite Hs.
+    destruct (ty_value_sty t) as (s & _ & _) || idtac.
+    - clear -Hp. induction t; simpl in *; auto; discriminate.
+    - rewrite andb_true_r. clear -Hp. induction t; simpl in *; auto; discriminate. }
+  destruct e; try discriminate.
+  - destruct es; [|discriminate]. destruct t; try discriminate. apply ty_eqb_true in H. subst t0.
+    rewrite ety_EArr. rewrite Ha. reflexivity.
+  - destruct pairs; [|discriminate]. destruct t; try discriminate. apply ty_eqb_true in H. subst t0.
+    rewrite ety_EMap. rewrite Ha. reflexivity.
+Qed.
+
+Fixpoint swt_stmt (F : list funcdef) (ret : option ty) (inloop : bool) (G : tyenv) (s : stmt) {struct s}
+  : option tyenv :=
+  let swt_stmts := fix swt_stmts (inloop : bool) (G : tyenv) (l : list stmt) : option tyenv :=
+    match l with
+    | [] => Some G
+    | x :: r => match swt_stmt F ret inloop G x with Some G' => swt_stmts inloop G' r | None => None end
+    end in
+  match s with
+  | SDecl n t e =>
+      match G with
+      | fr :: G' =>
+          if binder_ok n && negb (is_some (sget n fr))
+             && ty_decl t && (sval F G t e || zero_lit t e)
+          then Some (((n, t) :: fr) :: G') else None
+      | [] => None
+      end
+  | SAssign target e =>
+      match target_sty G target with
+      | Some st => if ann_ok F G target && sval F G (ty_of st) e then Some G else None
+      | None => None
+      end
+  | SCallStmt name args =>
+      match lookup_sig F name with
+      | Some sg => if sig_ann (ann_ok F G) G sg args then Some G else None
+      | None => None
+      end
+  | SReturn None => match ret with Some TNone => Some G | _ => None end
+  | SReturn (Some e) =>
+      match ret with
+      | Some t => if sval F G t e then Some G else None
+      | None => None
+      end
+  | SBreak => if inloop then Some G else None
+  | SIf conds els =>
+      let conds_ok := (fix go (cs : list (expr * list stmt)) : bool :=
+        match cs with
+        | [] => true
+        | (c, body) :: r =>
+            sis F (push G) c TBool && is_some (swt_stmts inloop (push G) body) && go r
+        end) conds in
+      let els_ok := match els with Some body => is_some (swt_stmts inloop (push G) body) | None => true end in
+      if conds_ok && els_ok then Some G else None
+  | SWhile c body =>
+      if sis F (push G) c TBool && is_some (swt_stmts true (push G) body) then Some G else None
+  | SFor var vt r body =>
+      let G1 := push G in
+      let rng : option ty :=
+        match r with
+        | RStep start stop step =>
+            if siso F G1 start TNum && sis F G1 stop TNum && siso F G1 step TNum then Some TNum else None
+        | RExpr y =>
+            if ann_ok F G1 y then match spec_ty_of G1 y with Some st => srange st | None => None end else None
+        end in
+      match rng with
+      | None => None
+      | Some t =>
+          let G2 := match var with
+                    | Some v => if binder_ok v && ty_eqb vt t && ty_decl vt then Some ([(v, vt)] :: G) else None
+                    | None => Some ([] :: G)
+                    end in
+          match G2 with
+          | Some G2 => if is_some (swt_stmts true (push G2) body) then Some G else None
+          | None => None
+          end
+      end
+  | SNop => Some G
+  end.
+
+Section SwtStmts.
+  Context (F : list funcdef) (ret : option ty).
+  Fixpoint swt_stmts (inloop : bool) (G : tyenv) (l : list stmt) : option tyenv :=
+    match l with
+    | [] => Some G
+    | x :: r => match swt_stmt F ret inloop G x with Some G' => swt_stmts inloop G' r | None => None end
+    end.
+  Section Conds.
+    Context (il : bool) (G : tyenv).
+    Fixpoint sconds (cs : list (expr * list stmt)) : bool :=
+      match cs with
+      | [] => true
+      | (c, body) :: r => sis F (push G) c TBool && is_some (swt_stmts il (push G) body) && sconds r
+      end.
+    Fixpoint wconds (cs : list (expr * list stmt)) : bool :=
+      match cs with
+      | [] => true
+      | (c, body) :: r =>
+          opt_ty_eqb (ety F (push G) c) TBool && is_some (wt_stmts F ret il (push G) body) && wconds r
+      end.
+  End Conds.
+End SwtStmts.
+
+Lemma swt_stmt_SIf F ret il G conds els : swt_stmt F ret il G (SIf conds els) =
+  if sconds F ret il G conds &&
+     match els with Some body => is_some (swt_stmts F ret il (push G) body) | None => true end
+  then Some G else None.
+Proof. reflexivity. Qed.
+Lemma wt_stmt_SIf' F ret il G conds els : wt_stmt F ret il G (SIf conds els) =
+  if wconds F ret il G conds &&
+     match els with Some body => is_some (wt_stmts F ret il (push G) body) | None => true end
+  then Some G else None.
+Proof. reflexivity. Qed.
+Lemma swt_stmt_SWhile F ret il G c body : swt_stmt F ret il G (SWhile c body) =
+  if sis F (push G) c TBool && is_some (swt_stmts F ret true (push G) body) then Some G else None.
+Proof. reflexivity. Qed.
+Lemma wt_stmt_SWhile' F ret il G c body : wt_stmt F ret il G (SWhile c body) =
+  if opt_ty_eqb (ety F (push G) c) TBool && is_some (wt_stmts F ret true (push G) body) then Some G else None.
+Proof. reflexivity. Qed.
+Lemma swt_stmt_SFor F ret il G var vt r body : swt_stmt F ret il G (SFor var vt r body) =
+      let G1 := push G in
+      let rng : option ty :=
+        match r with
+        | RStep start stop step =>
+            if siso F G1 start TNum && sis F G1 stop TNum && siso F G1 step TNum then Some TNum else None
+        | RExpr y =>
+            if ann_ok F G1 y then match spec_ty_of G1 y with Some st => srange st | None => None end else None
+        end in
+      match rng with
+      | None => None
+      | Some t =>
+          let G2 := match var with
+                    | Some v => if binder_ok v && ty_eqb vt t && ty_decl vt then Some ([(v, vt)] :: G) else None
+                    | None => Some ([] :: G)
+                    end in
+          match G2 with
+          | Some G2 => if is_some (swt_stmts F ret true (push G2) body) then Some G else None
+          | None => None
+          end
+      end.
+Proof. reflexivity. Qed.
+Lemma wt_stmt_SFor' F ret il G var vt r body : wt_stmt F ret il G (SFor var vt r body) =
+      let G1 := push G in
+      let rng : option ty :=
+        match r with
+        | RStep start stop step =>
+            if etyo F G1 start && opt_ty_eqb (ety F G1 stop) TNum && etyo F G1 step then Some TNum else None
+        | RExpr y => match ety F G1 y with Some t => range_var_ty t | None => None end
+        end in
+      match rng with
+      | None => None
+      | Some t =>
+          let G2 := match var with
+                    | Some v => if binder_ok v && ty_eqb vt t && ty_decl vt then Some ([(v, vt)] :: G) else None
+                    | None => Some ([] :: G)
+                    end in
+          match G2 with
+          | Some G2 => if is_some (wt_stmts F ret true (push G2) body) then Some G else None
+          | None => None
+          end
+      end.
+Proof. reflexivity. Qed.
+
+Definition opt_all (P : stmt -> Prop) (els : option (list stmt)) : Prop :=
+  match els with Some b => Forall P b | None => True end.
+
+Section StmtInd.
+  Context (P : stmt -> Prop).
+  Context (HDecl : forall n t e, P (SDecl n t e)) (HAssign : forall a e, P (SAssign a e))
+          (HCall : forall n a, P (SCallStmt n a)) (HRet : forall e, P (SReturn e)) (HBreak : P SBreak)
+          (HIf : forall conds els, Forall (fun cb => Forall P (snd cb)) conds ->
+                   opt_all P els -> P (SIf conds els))
+          (HWhile : forall c body, Forall P body -> P (SWhile c body))
+          (HFor : forall v vt r body, Forall P body -> P (SFor v vt r body))
+          (HNop : P SNop).
+  Fixpoint stmt_ind' (s : stmt) : P s :=
+    let lind := fix go (l : list stmt) : Forall P l :=
+      match l with [] => Forall_nil _ | x :: r => Forall_cons _ (stmt_ind' x) (go r) end in
+    match s with
+    | SDecl n t e => HDecl n t e
+    | SAssign a e => HAssign a e
+    | SCallStmt n a => HCall n a
+    | SReturn e => HRet e
+    | SBreak => HBreak
+    | SIf conds els =>
+        HIf conds els
+          ((fix go (cs : list (expr * list stmt)) : Forall (fun cb => Forall P (snd cb)) cs :=
+              match cs with
+              | [] => Forall_nil _
+              | cb :: r => Forall_cons cb (match cb as cb' return Forall P (snd cb') with (c, b) => lind b end) (go r)
+              end) conds)
+          (match els as els' return opt_all P els' with Some b => lind b | None => I end)
+    | SWhile c body => HWhile c body (lind body)
+    | SFor v vt r body => HFor v vt r body (lind body)
+    | SNop => HNop
+    end.
+End StmtInd.
+
+Definition stmt_conv (F : list funcdef) (s : stmt) : Prop :=
+  forall ret il G G', swt_stmt F ret il G s = Some G' -> wt_stmt F ret il G s = Some G'.
+
+Lemma stmts_conv F l : Forall (stmt_conv F) l ->
+  forall ret il G G', swt_stmts F ret il G l = Some G' -> wt_stmts F ret il G l = Some G'.
+Proof.
+  induction 1 as [|x l Hx Hl IH]; intros ret il G G' Hs; simpl in *; [exact Hs|].
+  destruct (swt_stmt F ret il G x) as [G1|] eqn:E; [|discriminate].
+  rewrite (Hx _ _ _ _ E). apply IH; exact Hs.
+Qed.
+
+Lemma stmts_conv_some F l : Forall (stmt_conv F) l ->
+  forall ret il G, is_some (swt_stmts F ret il G l) = true -> is_some (wt_stmts F ret il G l) = true.
+Proof.
+  intros Hl ret il G H. destruct (swt_stmts F ret il G l) as [G'|] eqn:E; [|discriminate].
+  rewrite (stmts_conv F l Hl _ _ _ _ E). reflexivity.
+Qed.
+
+Lemma all_arg_typed F G (args : list expr) : Forall (arg_typed F G) args.
+Proof. apply Forall_forall. intros a _. apply spec_to_static. Qed.
+
+Lemma sig_ann_call F G name sg args :
+  lookup_sig F name = Some sg -> sig_ann (ann_ok F G) G sg args = true ->
+  call_ty F G name args = Some (fs_ret sg).
+Proof.
+  intros Hl Ha. unfold call_ty. rewrite Hl. unfold sig_ann in Ha. unfold sig_args_ok.
+  destruct (fs_var sg) as [v|].
+  - destruct (fs_params sg); [|discriminate].
+    destruct (vargs_conv F G v args (all_arg_typed F G args) Ha) as (ts & -> & Hok). rewrite Hok. reflexivity.
+  - destruct (args_conv F G args (fs_params sg) (all_arg_typed F G args) Ha) as (ts & -> & Hok). rewrite Hok. reflexivity.
+Qed.
+
+Lemma opt_ty_eqb_refl t : opt_ty_eqb (Some t) t = true.
+Proof. simpl. apply ty_eqb_same. Qed.
+
+Lemma siso_etyo F G o : siso F G o TNum = true -> etyo F G o = true.
+Proof. destruct o; simpl; auto. intros H. rewrite (sis_ety _ _ _ _ H). apply opt_ty_eqb_refl. Qed.
+
+Theorem swt_stmt_wt F : forall s, stmt_conv F s.
+Proof.
+  induction s as [n t e|a e|n a|e| |conds els Hc He|c body Hb|v vt r body Hb|] using stmt_ind'; intros ret il G G' H.
+  - (* declaration *)
+    cbn [swt_stmt] in H. cbn [wt_stmt]. destruct G as [|fr G0]; [discriminate|].
+    match type of H with (if ?c then _ else _) = _ => destruct c eqn:Ec; [|discriminate] end.
+    apply andb_true_iff in Ec as [Ec Ev]. rewrite Ec. simpl.
+    apply andb_true_iff in Ec as [_ Ed].
+    assert (ety F (fr :: G0) e = Some t) as ->.
+    { apply orb_true_iff in Ev as [Ev|Ev]; [apply sval_ety; exact Ev|apply zero_lit_ety; assumption]. }
+    rewrite opt_ty_eqb_refl. exact H.
+  - (* assignment *)
+    cbn [swt_stmt] in H. cbn [wt_stmt].
+    destruct (target_sty G a) as [st|] eqn:Et; [|discriminate].
+    match type of H with (if ?c then _ else _) = _ => destruct c eqn:Ec; [|discriminate] end.
+    apply andb_true_iff in Ec as [Ea Ev].
+    destruct (target_sty_spec G a st Et) as [Hs Hshape].
+    rewrite (ann_sty_ety F G a st Ea Hs), (sval_ety F G _ _ Ev), ty_eqb_same, andb_true_r.
+    destruct a; try contradiction; try exact H.
+    destruct Hshape as (u & Hu). cbn [ann_ok] in Ea.
+    apply andb_true_iff in Ea as [Ea _]. apply andb_true_iff in Ea as [Ea _]. apply andb_true_iff in Ea as [Ea _].
+    destruct Hu as [Hu|Hu]; rewrite (ann_sty_ety F G a1 _ Ea Hu); exact H.
+  - (* call statement *)
+    cbn [swt_stmt] in H. cbn [wt_stmt].
+    destruct (lookup_sig F n) as [sg|] eqn:El; [|discriminate].
+    destruct (sig_ann (ann_ok F G) G sg a) eqn:Ea; [|discriminate].
+    rewrite (sig_ann_call F G n sg a El Ea). exact H.
+  - (* return *)
+    cbn [swt_stmt] in H. cbn [wt_stmt]. destruct e as [e|]; [|exact H].
+    destruct ret as [t|]; [|discriminate].
+    destruct (sval F G t e) eqn:Ev; [|discriminate].
+    rewrite (sval_ety F G t e Ev), opt_ty_eqb_refl.
+    unfold sval in Ev. apply andb_true_iff in Ev as [Ev _]. destruct t; try discriminate; exact H.
+  - exact H.
+  - (* if *)
+    rewrite swt_stmt_SIf in H. rewrite wt_stmt_SIf'.
+    match type of H with (if ?c then _ else _) = _ => destruct c eqn:Ec; [|discriminate] end.
+    apply andb_true_iff in Ec as [Ec Ee].
+    assert (wconds F ret il G conds = true) as ->.
+    { clear -Hc Ec. induction Hc as [|[c b] r Hb Hr IH]; [reflexivity|]. simpl in *.
+      apply andb_true_iff in Ec as [Ec Ec3]. apply andb_true_iff in Ec as [Ec1 Ec2].
+      rewrite (sis_ety _ _ _ _ Ec1), opt_ty_eqb_refl, (stmts_conv_some F b Hb _ _ _ Ec2), (IH Ec3). reflexivity. }
+    destruct els as [b|]; [|exact H]. simpl in He. rewrite (stmts_conv_some F b He _ _ _ Ee). exact H.
+  - (* while *)
+    rewrite swt_stmt_SWhile in H. rewrite wt_stmt_SWhile'.
+    match type of H with (if ?c then _ else _) = _ => destruct c eqn:Ec; [|discriminate] end.
+    apply andb_true_iff in Ec as [Ec1 Ec2].
+    rewrite (sis_ety _ _ _ _ Ec1), opt_ty_eqb_refl, (stmts_conv_some F body Hb _ _ _ Ec2). exact H.
+  - (* for *)
+    rewrite swt_stmt_SFor in H. rewrite wt_stmt_SFor'. cbv zeta in *.
+    match type of H with match ?x with _ => _ end = _ => destruct x as [t|] eqn:Er; [|discriminate] end.
+    match goal with |- match ?x with _ => _ end = _ => assert (x = Some t) as -> end.
+    { destruct r as [start stop step|y].
+      - match type of Er with (if ?c then _ else _) = _ => destruct c eqn:Ec; [|discriminate] end.
+        apply andb_true_iff in Ec as [Ec Ec3]. apply andb_true_iff in Ec as [Ec1 Ec2].
+        rewrite (siso_etyo _ _ _ Ec1), (siso_etyo _ _ _ Ec3), (sis_ety _ _ _ _ Ec2), opt_ty_eqb_refl. exact Er.
+      - destruct (ann_ok F (push G) y) eqn:Ea; [|discriminate].
+        destruct (spec_ty_of (push G) y) as [st|] eqn:Es; [|discriminate].
+        rewrite (ann_sty_ety F _ y st Ea Es). apply srange_static; exact Er. }
+    match type of H with match ?x with _ => _ end = _ => destruct x as [G2|]; [|discriminate] end.
+    match type of H with (if ?c then _ else _) = _ => destruct c eqn:Ec; [|discriminate] end.
+    rewrite (stmts_conv_some F body Hb _ _ _ Ec). exact H.
+  - exact H.
+Qed.
